@@ -402,26 +402,20 @@ func moSortedBeforeUse(c *Ctx, p *packages.Package, target string, rest []ast.St
 }
 
 func moLookupLoop(c *Ctx, st *ast.RangeStmt) bool {
-	if len(st.Body.List) != 1 {
-		return false
-	}
-	ifs, ok := st.Body.List[0].(*ast.IfStmt)
-	if !ok || ifs.Else != nil {
-		return false
-	}
-	call, ok := ifs.Cond.(*ast.CallExpr)
-	if !ok {
-		return false
-	}
-	sel, ok := call.Fun.(*ast.SelectorExpr)
-	if !ok || sel.Sel.Name != "similar" {
-		return false
-	}
-	if len(ifs.Body.List) == 0 {
-		return false
-	}
-	_, isBreak := ifs.Body.List[len(ifs.Body.List)-1].(*ast.BranchStmt)
-	return isBreak
+	// the bucket lookup: the body tests `similar` on the entry. That the lookup
+	// stops at the match and inserts once is decided on the SSA paths by
+	// AG-once (a dependency of class D), whatever way the loop is written
+	// (break under a flag, labelled continue, early return from a helper).
+	found := false
+	ast.Inspect(st.Body, func(n ast.Node) bool {
+		if call, ok := n.(*ast.CallExpr); ok {
+			if sel, ok := call.Fun.(*ast.SelectorExpr); ok && sel.Sel.Name == "similar" {
+				found = true
+			}
+		}
+		return !found
+	})
+	return found
 }
 
 // moOtherSources: math/rand, time.Now, select with several ready cases,
